@@ -159,6 +159,9 @@ func (c *Ctx) checkIntersect() {
 		if c.pairCall(recv) {
 			cls = "pair"
 		}
+		if _, _, path, ok := core.ResultComponent(core.Strip(recv)); ok && len(path) > 0 {
+			cls = "value" // a field of a verdict struct returned by a helper: a computed value, not a record
+		}
 		switch cls {
 		case "local", "phi", "extract", "load":
 			cls = "value"
